@@ -58,10 +58,37 @@ def build(P):
                               target_labels=vals["target_labels"], metrics_config=plain(it),
                               frame_results=TSList(TSObj("PerceptionFrameResult")).fresh(it.ctx, "frame_results"))
         return o
-    pure_list = lambda fn, res_t: Contract(f"{OF}:{fn}", params={}, returns=res_t, ensures=E("new_list", "is_new(result)"))
-    gor = Contract(f"{OR}:get_object_results", params={}, returns=RT, ensures=E("new_list", "is_new(result)"))
-    cuts = {idx.lookup(f"{OF}:filter_objects").fq: pure_list("filter_objects", TSList(DO)),
-            idx.lookup(f"{OF}:filter_object_results").fq: pure_list("filter_object_results", RT),
+    # the three callees are cut at NAMED results (uninterpreted functions of the lists they are given): what they compute is their own contract (C10, C01/C02);
+    # here: which lists the manager hands to which callee, and that what it returns is the matcher's answer for the two filtered lists
+    import z3 as _z3w
+    FILT = _z3w.Function("filtered_objects", I, B, I)             # (list of objects, is_gt) -> the list filter_objects returns
+    PAIRED = _z3w.Function("paired_results", I, I, I)             # (estimates, ground truths) -> the list get_object_results returns
+    FRES = _z3w.Function("uuid_filtered_results", I, I)           # results -> the list filter_object_results returns
+    DOL = TSList(DO)
+
+    def named(fn, elem, *argnames):
+        def build_(it, cf):
+            zs = []
+            for a in argnames:
+                v = cf.vars[a]
+                zs.append(it.truth(v) if a == "is_gt" else v.z)
+            z = fn(*zs)
+            it.ctx.assume(_z3w.And(z != 0, it.ctx.slen(z) >= 0))
+            return VSList(z, elem)
+        return build_
+
+    def spec_named(fn, elem, bool_second=False):
+        def f(interp, e, fr):
+            a = [interp.ev(x, fr) for x in e.args]
+            zs = [a[0].z] + ([interp.truth(a[1])] if bool_second else [x.z for x in a[1:]])
+            return VSList(fn(*zs), elem)
+        return f
+    P.install(lambda it: it.spec_funcs.update(filtered_objects=spec_named(FILT, DOL.elem, True), paired_results=spec_named(PAIRED, RT.elem),
+                                              uuid_filtered_results=spec_named(FRES, RT.elem)))
+    new_named = lambda target, fn, t, *argn: Contract(target, params={}, returns=named(fn, t.elem, *argn), ensures=E("new_list", "is_new(result)"))
+    gor = new_named(f"{OR}:get_object_results", PAIRED, RT, "estimated_objects", "ground_truth_objects")
+    cuts = {idx.lookup(f"{OF}:filter_objects").fq: new_named(f"{OF}:filter_objects", FILT, DOL, "objects", "is_gt"),
+            idx.lookup(f"{OF}:filter_object_results").fq: new_named(f"{OF}:filter_object_results", FRES, RT, "object_results"),
             idx.lookup(f"{OR}:get_object_results").fq: gor}
     est_untouched = "len(estimated_objects) == old(len(estimated_objects)) and forall(k, 0, len(estimated_objects), estimated_objects[k] is old(estimated_objects[k]))"
     gt_frame_untouched = lambda f: (f"{f}.objects is old({f}.objects) and len({f}.objects) == old(len({f}.objects)) and "
@@ -75,7 +102,11 @@ def build(P):
                   "evaluated_frame_is_a_new_object_with_the_same_stamp_and_transforms",
                   "is_new(result[1]) and result[1].unix_time == frame_ground_truth.unix_time and result[1].frame_name == frame_ground_truth.frame_name and "
                   "result[1].transforms is frame_ground_truth.transforms",
-                  "results_are_new", "is_new(result[0])"))
+                  "results_are_new", "is_new(result[0])",
+                  "the_evaluated_frame_holds_the_filtered_ground_truths", "result[1].objects is filtered_objects(old(frame_ground_truth.objects), True)",
+                  "results_are_the_matchers_answer_for_the_two_filtered_lists",
+                  "result[0] is paired_results(filtered_objects(old(estimated_objects), False), filtered_objects(old(frame_ground_truth.objects), True)) or "
+                  "result[0] is uuid_filtered_results(paired_results(filtered_objects(old(estimated_objects), False), filtered_objects(old(frame_ground_truth.objects), True)))"))
     P.verify(f"{MG}:PerceptionEvaluationManager._filter_objects", name="_filter_objects", contract=c_fo, extra_contracts=cuts)
     # ---------------------------------------------------------------- add_frame_result
     ctor = Contract(f"{FR}:PerceptionFrameResult.__init__", params={},
